@@ -324,6 +324,24 @@ pub fn char_families(level: u32, seed: u64) -> Vec<Family> {
             }
         }
     }
+    // leftmost-first shadowing: k one-character patterns registered first, then patterns that start
+    // with one of them (skipped under leftmost-first) and bring m characters that label no edge
+    for (k, m) in [(2usize, 1usize), (2, 3), (3, 6), (5, 4), (2, 20), (7, 60)] {
+        let heads = chars_from(0x61, k);
+        let extra = chars_from(0x4e00, m);
+        let mut p: Vec<Vec<u8>> = heads.iter().map(|c| c.to_string().into_bytes()).collect();
+        for (i, &h) in heads.iter().enumerate() {
+            let mut s = String::new();
+            s.push(h);
+            for (j, &e) in extra.iter().enumerate() {
+                if (i + j) % k == i % k || m <= 6 {
+                    s.push(e);
+                }
+            }
+            p.push(s.into_bytes());
+        }
+        v.push(fam(&format!("chars_lf_shadow_k{k}_m{m}"), p));
+    }
     // alphabets beyond 512 / 1024 characters (block lengths 1024 and 2048)
     {
         let al = chars_from(0x1000, 1000);
